@@ -56,6 +56,11 @@ pub trait Tracer {
     fn before(&self, ev: &Event);
     /// called after the operation was performed, with its result
     fn after(&self, ev: &Event);
+    /// called for `compare_exchange_weak` only, after `before`: return true to make
+    /// this attempt fail spuriously (as the memory model allows on LL/SC targets)
+    fn fail_weak_spuriously(&self, _ev: &Event) -> bool {
+        false
+    }
 }
 
 thread_local! {
@@ -75,6 +80,13 @@ fn before(ev: &Event) {
             }
         }
     });
+}
+
+fn fail_weak_spuriously(ev: &Event) -> bool {
+    TRACER.with(|cell| match cell.try_borrow() {
+        Ok(guard) => guard.as_ref().map_or(false, |t| t.fail_weak_spuriously(ev)),
+        Err(_) => false,
+    })
 }
 
 fn after(ev: &Event) {
@@ -136,8 +148,13 @@ impl AtomicUsize {
         let access = Access::CompareExchange { current, new, success, failure, weak: true };
         let mut ev = Event { addr: self.addr(), access, result: None };
         before(&ev);
-        // never fails spuriously under the harness (one thread runs at a time)
-        let r = self.0.compare_exchange(current, new, success, failure);
+        // fails spuriously only when the tracer asks for it (one thread runs at a time
+        // under the harness, so the hardware never does)
+        let r = if fail_weak_spuriously(&ev) {
+            Err(self.0.load(failure))
+        } else {
+            self.0.compare_exchange(current, new, success, failure)
+        };
         ev.result = Some(r);
         after(&ev);
         r
